@@ -1240,7 +1240,20 @@ def enumerate_paths(fn, decide=None, max_paths=256):
                 if isinstance(it.optional_vars, ast.Name):
                     env[it.optional_vars.id] = it.context_expr
             return run(list(s.body) + rest, env, asm, k)
-        raise AnalysisError(f"shape not recognised: `{norm_text(s, 50)}` in {qualname_of(fn)} (path enumeration handles if / loops / with)")
+        if isinstance(s, ast.Try):
+            # the normal path: body, else, finally; and one path per handler, entered after an unknown prefix of the body
+            # (whatever the body assigns is unknown there; the Try node itself stands in the trace for that prefix)
+            run(list(s.body) + list(s.orelse) + list(s.finalbody) + rest, env, asm, k)
+            for h in s.handlers:
+                e2 = dict(env)
+                for x in ast.walk(ast.Module(body=list(s.body), type_ignores=[])):
+                    if isinstance(x, ast.Name) and isinstance(x.ctx, ast.Store):
+                        e2[x.id] = ast.Name(id=f"<{x.id}@try{s.lineno}>", ctx=ast.Load())
+                if h.name:
+                    e2[h.name] = ast.Name(id=f"<{h.name}@except{h.lineno}>", ctx=ast.Load())
+                run(list(h.body) + list(s.finalbody) + rest, e2, asm, k)
+            return
+        raise AnalysisError(f"shape not recognised: `{norm_text(s, 50)}` in {qualname_of(fn)} (path enumeration handles if / loops / with / try)")
 
     run(list(fn.body), {}, {}, lambda e, a: out.append((dict(a), dict(e), None)))
     return out
